@@ -175,7 +175,7 @@ pub fn h_mapped_input() {
         vcover!(k0 == 1 && k0 < len, "mapped: empty match between two tokens");
         let lo = if k0 >= 1 { spans[k0 - 1].end } else { 0 };
         let hi = if k0 < len { spans[k0].start } else { eoi_pos };
-        vassert!(sp.start == sp.end && lo <= sp.start && sp.start <= hi, "C07/mapped.empty-match-gets-an-empty-span-between-its-neighbours");
+        vassert_finding!(sp.start == sp.end && lo <= sp.start && sp.start <= hi, "C07/mapped.empty-match-gets-an-empty-span-between-its-neighbours");
     }
     let _ = c;
 }
